@@ -74,20 +74,21 @@ def case_pair(c: dict) -> dict:
     if c.get("offeq"):
         # out-of-equilibrium fields of the result are scalars under a relabelling of field space (the particle's mass function is
         # transformed with the fields); the Boltzmann solution is linear in the source, i.e. in the wall shape, and inherits the wall-shape
-        # tolerance (1e-3 of the largest entry; largest spread measured on the unchanged tree 1.5e-4)
+        # tolerance policy (~10x the largest spread measured over the complete thorough lattice on the unchanged tree, 5.6e-4 for Delta11
+        # of the spectator model under the large translation): 5e-3 of the largest entry
         r.tag("offeq-pair")
         r.true("offeq:result-says-out-of-equilibrium-included", got.get("hasOffEq") is True and ref.get("hasOffEq") is True)
         for k in ("deltaF", "Delta00", "Delta02", "Delta20", "Delta11"):
-            r.close("offeq:" + k, got[k], ref[k], 1e-3 * np.max(np.abs(ref[k])))
-        r.close("offeq:truncationError", got["truncationError"] / ref["truncationError"], 1.0, 1e-3)
+            r.close("offeq:" + k, got[k], ref[k], 5e-3 * np.max(np.abs(ref[k])))
+        r.close("offeq:truncationError", got["truncationError"] / ref["truncationError"], 1.0, 5e-3)
         if len(set(signs)) == 1:
-            r.close("offeq:linearizationCriterion1", got["lin1"] / ref["lin1"], 1.0, 1e-3)
-            r.close("offeq:linearizationCriterion2", got["lin2"] / ref["lin2"], 1.0, 1e-3)
+            r.close("offeq:linearizationCriterion1", got["lin1"] / ref["lin1"], 1.0, 5e-3)
+            r.close("offeq:linearizationCriterion2", got["lin2"] / ref["lin2"], 1.0, 5e-3)
         else:
             # checkLinearization weights both integrals with d(sum_i phi_i)/dz, which is not invariant under the reflection of a
             # single field; the criteria are diagnostics that C08's statement does not list -> recorded, not judged
             r.tag("observation(linearization-criteria-weighted-by-d(sum of fields)/dz:not-reflection-covariant)"
-                  if abs(float(got["lin1"][0] / ref["lin1"][0]) - 1.0) > 5e-4 else "linearization-criteria-equal")
+                  if abs(float(got["lin1"][0] / ref["lin1"][0]) - 1.0) > 5e-3 else "linearization-criteria-equal")
     # wall shape: ~10x the largest spread between relabelled runs observed on the unchanged tree (8.5e-5 in the widths over the
     # complete thorough lattice since the pinned offset is that of the field with the largest change, whatever the field order;
     # it was 6e-4, and the tolerance 5e-3, while field 0 was pinned); the solver's stopping rule gives no sharper a-priori bound
